@@ -53,6 +53,7 @@ type Sparse struct {
 	cells  map[int64]*Value
 	length *Term
 	zero   func() Value
+	mk     func(i int64) Value // optional: lazily created symbolic content
 }
 
 func (s *Sparse) cell(i int64) *Value {
@@ -60,7 +61,11 @@ func (s *Sparse) cell(i int64) *Value {
 		return p
 	}
 	p := new(Value)
-	*p = s.zero()
+	if s.mk != nil {
+		*p = s.mk(i)
+	} else {
+		*p = s.zero()
+	}
 	s.cells[i] = p
 	return p
 }
